@@ -42,9 +42,12 @@ Loop fragment (kernel specs with `loops=True`; the block loops of CompoundInterv
     * lazily cached attribute: `if self.A is None: self.A = E` followed by `return self.A` is `return E`, provided
       every other store to `self.A` in the class is `self.A = None` inside `__init__`.
     * `fixed={param: False}`: a trailing parameter pinned to its DEFAULT value (checked against the signature); tests
-      on it are decided statically.  `si_has_overlap_view`: `b.has_overlap(other, <False>, full_span=False)` on a
-      SingleInterval `b` with a SingleInterval argument is `SingleInterval_has_overlap_single_interval b other`
-      (parent-less operands, match_strand=False: the preceding tests of SingleInterval.has_overlap are all False).
+      on it are decided statically.
+    * `parentless=True` (SingleInterval.has_overlap): the operands are parent-less SingleIntervals, so `x.parent` and
+      `x.parent_id` are `None` and `x.is_empty` is `False` (each checked against the defining property /
+      constructor: `parentless_guards`); `None != None`, `None or None` and `type(other) is SingleInterval` are decided
+      statically, which prunes the parent bookkeeping and the dispatch to other location types.
+      `b.has_overlap(other, m, full_span=False)` on a SingleInterval-typed `b` then calls that kernel.
     * `cut`: the kernel stops before the first statement that calls the named function and returns the named locals
       (the remainder is pinned textually in `<kernel>_tail`).
     * the CI view itself is guarded: `blocks`, `_single_intervals`, `num_blocks`, `__len__` and the assignments of
@@ -562,6 +565,32 @@ def ci_view_guards(repo):
     return bad
 
 
+def parentless_guards(repo):
+    """facts about parent-less SingleIntervals that the `parentless` view decides statically"""
+    bad = []
+    try:
+        root = find_class(module_of(repo, "__init__.py"), "AbstractLocation")
+        if src_of(body_no_doc(find_func(root, "parent_id"))) != canon("return self.parent.id if self.parent else None"):
+            bad.append("AbstractLocation.parent_id is not `self.parent.id if self.parent else None`")
+        scls = find_class(module_of(repo, "location/location_impl.py"), "SingleInterval")
+        if src_of(body_no_doc(find_func(scls, "is_empty"))) != canon("return self == EmptyLocation()"):
+            bad.append("SingleInterval.is_empty is not `self == EmptyLocation()`")
+        eq = body_no_doc(find_func(scls, "__eq__"))
+        if not eq or ast.dump(eq[0]) != ast.dump(ast.parse("if type(other) is not SingleInterval:\n    return False").body[0]):
+            bad.append("SingleInterval.__eq__ does not start with the type test")
+        init = [ast.dump(x) for x in find_func(scls, "__init__").body]
+        if canon("self.parent = None") not in init:
+            bad.append("SingleInterval.__init__ does not set self.parent = None")
+        for fn in scls.body:
+            if isinstance(fn, ast.FunctionDef) and fn.name != "__init__":
+                for nd in ast.walk(fn):
+                    if isinstance(nd, ast.Attribute) and isinstance(nd.ctx, ast.Store) and nd.attr == "parent":
+                        bad.append(f"SingleInterval.{fn.name} assigns .parent")
+    except Exception as e:  # noqa
+        bad.append(f"{type(e).__name__}: {e}")
+    return bad
+
+
 def exc_subclasses(repo):
     """name -> set of names of its (transitive) subclasses declared in exc.py"""
     sub = {}
@@ -657,6 +686,11 @@ class K:
                     return [], f"{chain[0]}.{fld}", ("Strand" if chain[1] == "strand" else "Int")
                 if t in ("CDSFrame", "CDSPhase", "Strand") and chain[1:] == ["value"]:
                     return [], f"{chain[0]}.value", "Int"
+                if t == "SI" and len(chain) == 2 and self.spec.get("parentless"):
+                    if chain[1] in ("parent", "parent_id"):
+                        return [], "none", "None"
+                    if chain[1] == "is_empty":
+                        return [], "False", "Prop"
                 if t == "CI" and len(chain) == 2 and chain[1] in CI_ATTRS:
                     proj, pt = CI_ATTRS[chain[1]]
                     return [], f"{lname(chain[0])}.{proj}", pt
@@ -676,6 +710,8 @@ class K:
             if isinstance(n.op, ast.USub) and t == "Int":
                 return b, f"(-{c})", "Int"
             if isinstance(n.op, ast.Not):
+                if self.loops and not b and c in ("True", "False") and t == "Prop":
+                    return [], ("False" if c == "True" else "True"), "Prop"
                 return b, f"(¬ {self.as_prop(c, t)})", "Prop"
             raise Unsupported("unary op")
         if isinstance(n, ast.BinOp):
@@ -709,6 +745,17 @@ class K:
             if binds:
                 raise Unsupported("effectful operand of and/or")
             op = " ∧ " if isinstance(n.op, ast.And) else " ∨ "
+            if self.loops:
+                props = [self.as_prop(p[1], p[2]) for p in parts]
+                absorbing, neutral = ("False", "True") if isinstance(n.op, ast.And) else ("True", "False")
+                if absorbing in props:
+                    return [], absorbing, "Prop"         # (no operand has an effect: binds is empty)
+                props = [x for x in props if x != neutral]
+                if not props:
+                    return [], neutral, "Prop"
+                if len(props) == 1:
+                    return [], props[0], "Prop"
+                return [], "(" + op.join(props) + ")", "Prop"
             return [], "(" + op.join(self.as_prop(p[1], p[2]) for p in parts) + ")", "Prop"
         if isinstance(n, ast.Compare) and len(n.ops) == 1 and isinstance(n.ops[0], ast.Is) \
                 and isinstance(n.left, ast.Call) and getattr(n.left.func, "id", "") == "type" and len(n.left.args) == 1 \
@@ -882,19 +929,21 @@ class K:
                     tmp = self.fresh()
                     return [(tmp, f"Strand_reverse {ch[0]}.strand")], tmp, "Strand"
                 if ch and len(ch) == 2 and self.types.get(ch[0]) == "SI" and ch[1] == "has_overlap" \
-                        and self.spec.get("si_has_overlap_view"):
-                    # b.has_overlap(other, <False>, full_span=False), parent-less SingleIntervals
-                    kname = "SingleInterval_has_overlap_single_interval"
+                        and self.spec.get("calls_si_has_overlap"):
+                    # b.has_overlap(other, match_strand, full_span=False) on parent-less SingleIntervals
+                    kname = "SingleInterval_has_overlap"
                     if kname not in EMITTED:
                         raise Unsupported(f"{kname} not generated before its caller")
-                    if len(n.args) != 2 or any(kw.arg != "full_span" or not isinstance(kw.value, ast.Constant)
-                                               or kw.value.value is not False for kw in n.keywords):
-                        raise Unsupported("has_overlap view: expected (other, match_strand, full_span=False)")
+                    if len(n.args) != 2 or [kw.arg for kw in n.keywords] != ["full_span"] \
+                            or not isinstance(n.keywords[0].value, ast.Constant) or n.keywords[0].value.value is not False:
+                        raise Unsupported("has_overlap: expected (other, match_strand, full_span=False)")
                     (bo, co, to), (bm, cm, tm) = self.expr(n.args[0]), self.expr(n.args[1])
-                    if to != "SI" or bo or bm or cm != "False":
-                        raise Unsupported("has_overlap view: other must be a SingleInterval and match_strand statically False")
+                    if to != "SI" or tm not in ("Bool", "Prop"):
+                        raise Unsupported(f"has_overlap arguments: {to}, {tm}")
+                    if tm == "Prop":
+                        cm = f"(decide {cm})"
                     tmp = self.fresh()
-                    return [(tmp, f"{kname} {lname(ch[0])} {co}")], tmp, "Bool"
+                    return bo + bm + [(tmp, f"{kname} {lname(ch[0])} {co} {cm}")], tmp, "Bool"
                 if ch and len(ch) == 2 and self.types.get(ch[0]) == "CI" and ch[1] in CI_METHODS:
                     kname, atys, rty = CI_METHODS[ch[1]]
                     if kname not in EMITTED:
@@ -942,6 +991,8 @@ class K:
             return f"({c} = true)"
         if self.loops and t.startswith("List:"):
             return f"({c} ≠ [])"
+        if self.loops and t == "None":
+            return "False"
         raise Unsupported(f"truthiness of {t}")
 
     def as_int(self, binds, c, t):
@@ -1546,10 +1597,13 @@ KERNELS = [
                   returns=[("new_blocks", "List:SI"), ("new_strand", "Strand")])),
     dict(name="CompoundInterval_is_overlapping", file="location/location_impl.py", cls="CompoundInterval",
          fn="is_overlapping", args=[("self", "CI")], ret="Bool", loops=True),
-    # view: other is a parent-less SingleInterval, match_strand / full_span / strict_parent_compare at their defaults
+    # views: both operands parent-less, `other` a SingleInterval, full_span / strict_parent_compare at their defaults
+    dict(name="SingleInterval_has_overlap", file="location/location_impl.py", cls="SingleInterval", fn="has_overlap",
+         args=[("self", "SI"), ("other", "SI"), ("match_strand", "Bool")], ret="Bool", loops=True, parentless=True,
+         fixed={"full_span": False, "strict_parent_compare": False}),
     dict(name="CompoundInterval_has_overlap", file="location/location_impl.py", cls="CompoundInterval", fn="has_overlap",
-         args=[("self", "CI"), ("other", "SI")], ret="Bool", loops=True, si_has_overlap_view=True,
-         fixed={"match_strand": False, "full_span": False, "strict_parent_compare": False}),
+         args=[("self", "CI"), ("other", "SI"), ("match_strand", "Bool")], ret="Bool", loops=True,
+         calls_si_has_overlap=True, fixed={"full_span": False, "strict_parent_compare": False}),
     # CONSTRUCTOR CUT: `return CompoundInterval(new_starts, new_ends, self.strand, new_parent)` returns
     # `CombineOut.rebuilt new_starts new_ends` (the constructor's sorting/validation is not translated);
     # `return self` -> `CombineOut.same`, `return EmptyLocation()` -> `CombineOut.empty`
@@ -1613,12 +1667,15 @@ def gen_kernels(repo, errors):
     names = []
     EMITTED.clear()
     ci_bad = ci_view_guards(repo)
+    pl_bad = parentless_guards(repo)
     excsub = exc_subclasses(repo)
     for spec in KERNELS:
         try:
             mod = module_of(repo, spec["file"])
             container = find_class(mod, spec["cls"]) if spec["cls"] else mod
             fn = find_func(container, spec["fn"])
+            if spec.get("parentless") and pl_bad:
+                raise Unsupported("the parent-less view is not faithful to this source: " + "; ".join(pl_bad[:3]))
             if any(t == "CI" for _, t in spec["args"]) and ci_bad:
                 raise Unsupported("the CI view is not faithful to this source: " + "; ".join(ci_bad[:3]))
             k = K(spec, module_consts(mod), cls=container if spec["cls"] else None, excsub=excsub)
